@@ -164,11 +164,12 @@ func bkGenMain(args []string) int {
 // ---------------------------------------------------------------- loading with outcome classification
 
 type loadOutcome struct {
-	Outcome string   `json:"outcome"` // "ok" | "err" | "panic" | "hang"
-	Msg     string   `json:"msg"`
-	Items   [][2]int `json:"items"`
-	Count   int64    `json:"count"`
-	Leak    int      `json:"leak"`
+	Outcome   string   `json:"outcome"` // "ok" | "err" | "panic" | "hang"
+	Msg       string   `json:"msg"`
+	Items     [][2]int `json:"items"`
+	Count     int64    `json:"count"`
+	Leak      int      `json:"leak"`      // blocks still allocated after Close of the instance that loaded (or failed to load) the image
+	AllocErrs int      `json:"allocerrs"` // double / invalid frees recorded by the allocator
 }
 
 // loadDir runs LoadFromDisk on a fresh instance under a watchdog; panics of the calling goroutine are
@@ -218,6 +219,12 @@ func loadDir(dir string, o *bkOpts, watchdog time.Duration) loadOutcome {
 			go func() { defer func() { recover(); close(done) }(); d.Shutdown() }()
 			select {
 			case <-done:
+				// everything the (possibly failed) restore allocated must have gone back to the allocator
+				if d.Mem != nil {
+					_, _, live, errs := d.Mem.Counts()
+					out.Leak = live
+					out.AllocErrs = len(errs)
+				}
 			case <-time.After(watchdog):
 			}
 		}
@@ -279,6 +286,7 @@ func bkLoadMain(args []string) int {
 			ev[k] = v
 		}
 		ev["outcome"], ev["msg"], ev["items"], ev["count"] = res.Outcome, res.Msg, res.Items, res.Count
+		ev["leak"], ev["allocerrs"] = res.Leak, res.AllocErrs
 		t.Emit(ev)
 		t.Flush()
 		n++
@@ -495,7 +503,7 @@ func bkDamageMain(args []string) int {
 		}
 		t.Emit(tr.Ev{"e": "Damage", "case": n, "file": c.file, "kind": c.kind, "off": c.off, "pat": c.pat, "class": cls,
 			"descr": descr, "conc": o.conc, "delta": o.delta,
-			"outcome": res.Outcome, "msg": res.Msg, "items": res.Items, "count": res.Count})
+			"outcome": res.Outcome, "msg": res.Msg, "items": res.Items, "count": res.Count, "leak": res.Leak, "allocerrs": res.AllocErrs})
 		t.Flush()
 		if res.Outcome == "hang" {
 			// the stuck goroutines keep their file handles; carry on (they are harmless) but note it
